@@ -313,8 +313,13 @@ class ctx:
 
         async def generator() -> AsyncGenerator[Result, None]:
             async with streaming_context:
-                async for result in source(*args, **kwargs):
-                    yield result
+                source_generator: AsyncGenerator[Result, None] = source(*args, **kwargs)
+                try:
+                    async for result in source_generator:
+                        yield result
+
+                finally:  # close the source within this context, do not leave it to the finalizer
+                    await source_generator.aclose()
 
         # finally return it as an iterator
         return context_snapshot.run(generator)
